@@ -171,7 +171,7 @@ def _palette():
 MUTATIONS = ['set0X', 'set-1Y', 'set5X', 'slice02XY', 'slice02empty', 'slice11Z', 'sliceAllEmpty', 'del0', 'del-1',
              'del7', 'ins0X', 'ins1Z', 'ins-1Z', 'ins-9X', 'appendY', 'extendXZ', 'pop', 'pop0', 'reverse', 'iaddX', 'start=', 'end=',
              'remove0', 'clear']
-QUERIES = ['length', 'length_loose', 'length_part', 'point', 'T2t', 'ends', 'bbox', 'd', 'eqhash']
+QUERIES = ['length', 'length_loose', 'length_loosest', 'length_part', 'point', 'T2t', 'ends', 'bbox', 'd', 'eqhash']
 ALPHABET = MUTATIONS + QUERIES
 
 
@@ -269,6 +269,8 @@ def run_query(ctx, p, q):
         safe(lambda: p.length())
     elif q == 'length_loose':
         safe(lambda: p.length(error=1e-3, min_depth=1))
+    elif q == 'length_loosest':
+        safe(lambda: p.length(error=0.5, min_depth=0))
     elif q == 'length_part':
         safe(lambda: p.length(0.2, 0.7))
     elif q == 'point':
